@@ -531,6 +531,44 @@ var Attacks = []Attack{
 		a.logf("adversary votes for %s (parts total altered) at %d/%d", ShortBID(bad), rs.Height, rs.Round)
 		return true
 	}},
+	{"one-signature-under-every-validator-index", func(a *AttackCtx) bool {
+		// The adversary proposes X to one half and Y to the other and sends every node its own, genuinely signed
+		// prevote and precommit for the node's block once per validator index (its own address, its own signature,
+		// another validator's slot): one validator's power must count once whatever slots its votes claim.
+		h, ok := a.toByzProposerRound(1, 6)
+		if !ok {
+			return false
+		}
+		ref := a.correct()[0]
+		x, y := a.Adv.MakeBlock(ref, a.B, 0), a.Adv.MakeBlock(ref, a.B, 1)
+		if x == nil || y == nil {
+			return false
+		}
+		nodes := a.correct()
+		half := len(nodes) / 2
+		size := ref.CS.GetRoundState().Validators.Size()
+		for i, n := range nodes {
+			blk := x
+			if i >= half {
+				blk = y
+			}
+			a.sendBlock(n, blk, h, 1, 0)
+			for _, typ := range []kproto.SignedMsgType{kproto.PrevoteType, kproto.PrecommitType} {
+				v := a.Adv.SignVote(n, a.B, typ, h, 1, blk.bid, ClockNow())
+				a.Net.Inject(n, &consensus.VoteMessage{Vote: v})
+				for idx := 0; idx < size; idx++ {
+					if uint32(idx) == v.ValidatorIndex {
+						continue
+					}
+					w := v.Copy()
+					w.ValidatorIndex = uint32(idx)
+					a.Net.Inject(n, &consensus.VoteMessage{Vote: w})
+				}
+			}
+		}
+		a.logf("adversary sent its votes for X resp. Y at %d/1 under every one of the %d validator indices", h, size)
+		return true
+	}},
 	{"late-conflicting-precommits-for-previous-height", func(a *AttackCtx) bool {
 		res := a.Net.RunSync(a.Net.MinHeight()+1, 200, nil)
 		if !res.Reached {
